@@ -177,7 +177,7 @@ def loops_correspondence(ctx):
                           ("Clue/DiscriminativeAL", oracle_loop_cases, "check_oracle_loop"), ("GreedySamplingX", gsx_cases, "check_gsx"),
                           ("TypiClust", typiclust_cases, "check_typiclust"), ("Badge", badge_cases, "check_sampling"),
                           ("DropQuery", dropquery_cases, "check_oracle_loop"), ("Falcun", falcun_cases, "check_sampling"),
-                          ("BatchBALD", batchbald_cases, "check_bald")):
+                          ("BatchBALD", batchbald_cases, "check_bald"), ("RegressionTreeBasedAL", regtree_cases, "check_regtree")):
         terms, meta = gen(ctx, count)
         bad, err = ctx.coq_eval_cases("loop_" + fn, IMPORTS, fn, terms, chunk=100)
         if err:
@@ -522,6 +522,107 @@ def badge_cases(ctx, count):
         ctx.hist[f"badge:{cmode}:" + ("fallback" if any(not np.any(r > 0) for r in rec) else "weights")] += 1
         if k >= 2:
             ctx.nontriv(("badge", X.tobytes(), y.tobytes(), cmode, repr(rcd["candidates"]), bs, seed))
+    return terms, meta
+
+
+# ---------------------------------------------------------------------------------------------
+# RegressionTreeBasedAL (random / diversity), AS WRITTEN: the leaves that hold candidates are visited in ascending order, leaf l gets
+# n_k[l] steps, every step works on a fresh -inf row.  Numeric layer recorded / recomputed from outside: the per-leaf quotas
+# (_discretize_acquisitions_per_leaf is wrapped), the leaf of every candidate (a pre-fitted tree, fit_reg=False), the distances of
+# the diversity method, the generator state at every rand_argmax.  Short batches and -inf picks (recorded findings) are reproduced.
+def regtree_cases(ctx, count):
+    import copy
+    from sklearn.metrics import pairwise_distances_argmin_min
+    from sklearn.tree import DecisionTreeRegressor
+    import skactiveml.pool._regression_tree_based_al as RT
+    from skactiveml.regressor import SklearnRegressor
+    from .core import fkey
+    rng = ctx.rng("regtree")
+    terms, meta = [], []
+    orig_disc, orig_ra = RT._discretize_acquisitions_per_leaf, RT.rand_argmax
+    for h in range(count):
+        n = int(rng.integers(5, 12))
+        X = rng.integers(0, 4, size=(n, 2)).astype(float)
+        y_true = np.round(rng.normal(size=n) * 2, 1)
+        y = y_true.copy()
+        nlab = int(rng.integers(2, max(3, n - 1)))
+        y[rng.permutation(n)[nlab:]] = np.nan
+        unl = [int(i) for i in np.flatnonzero(np.isnan(y))]
+        if not unl:
+            continue
+        cmode = str(rng.choice(["none", "idx"]))
+        if cmode == "none":
+            cand, cmap = None, unl
+        else:
+            cmap = sorted(int(i) for i in rng.choice(unl, size=int(rng.integers(1, len(unl) + 1)), replace=False))
+            cand = np.array(cmap)
+        m = len(cmap)
+        bs = int(rng.integers(1, m + 2))
+        k = min(bs, m)
+        seed = int(rng.integers(0, 1000))
+        method = "random" if h % 2 == 0 else "diversity"
+        reg = SklearnRegressor(DecisionTreeRegressor(min_samples_leaf=int(rng.choice([1, 2])), random_state=seed), random_state=seed).fit(X, y)
+        nk_rec, noise_rec = [], []
+
+        def rec_disc(*a, **kw):
+            out = orig_disc(*a, **kw)
+            nk_rec.append(np.array(out).copy())
+            return out
+
+        def rec_ra(a, random_state=None, **kw):
+            noise_rec.append(copy.deepcopy(random_state).random(np.shape(a)))
+            return orig_ra(a, random_state=random_state, **kw)
+        RT._discretize_acquisitions_per_leaf, RT.rand_argmax = rec_disc, rec_ra
+        rcd = {"strategy": f"RegressionTreeBasedAL[{method}]", "X": X.tolist(), "y": [None if v != v else v for v in y], "candidates_mode": cmode,
+               "candidates": None if cand is None else cmap, "batch_size": bs, "seed": seed}
+        try:
+            with warnings.catch_warnings():
+                warnings.simplefilter("ignore")
+                idx, ut = RT.RegressionTreeBasedAL(method=method, random_state=seed).query(X, y, reg=reg, fit_reg=False, candidates=cand, batch_size=bs, return_utilities=True)
+        except Exception as e:
+            ctx.hist[f"regtree_exception(recorded finding or numeric layer):{type(e).__name__}"] += 1
+            continue
+        finally:
+            RT._discretize_acquisitions_per_leaf, RT.rand_argmax = orig_disc, orig_ra
+        if len(nk_rec) != 1:
+            continue                      # cold-start fallback (proportional simple_batch): not this loop
+        idx = [int(i) for i in np.asarray(idx).ravel()]
+        ut = np.asarray(ut, dtype=float)
+        Xc = X[cmap]
+        leaves = [int(v) for v in reg.apply(Xc)]
+        nk = nk_rec[0]
+        sched = [int(l) for l in sorted(set(leaves)) for _ in range(int(nk[l]))]
+        if len(idx) != len(sched) or len(noise_rec) != len(sched) or ut.shape[1] != n:
+            ctx.violation(rcd["strategy"], "loop_shape", f"{len(idx)} indices, {len(noise_rec)} draws, schedule of {len(sched)} steps", rcd, found_input=False,
+                          what="RegressionTreeBasedAL: the number of steps differs from the per-leaf quotas of the leaves that hold candidates")
+            continue
+        if method == "random":
+            vals = np.ones(m)
+        else:
+            lab_idx = np.flatnonzero(~np.isnan(y))
+            leaf_lab = reg.apply(X[lab_idx])
+            vals = np.full(m, np.nan)
+            for l in sorted(set(leaves)):
+                sel = np.array(leaves) == l
+                Xl = X[lab_idx][leaf_lab == l]
+                if len(Xl) == 0:
+                    vals = None
+                    break
+                vals[sel] = pairwise_distances_argmin_min(Xc[sel], Xl, axis=1)[1]
+            if vals is None:
+                continue
+        rows = ut[:len(sched)]
+        allk = rank_keys([fkey(v) for v in np.concatenate([vals, rows.ravel(), [-np.inf]])])
+        vk, rk, negk = allk[:m], np.array(allk[m:m + rows.size], dtype=object).reshape(rows.shape), allk[-1]
+        vr = lambda r: listlit(["None" if v is None else f"(Some {zlit(int(v))})" for v in r])
+        obs = listlit([f"({natlit(idx[i])}, {vr(rk[i])})" for i in range(len(sched))])
+        terms.append(f"({natlist(leaves)}, {zlist(vk)}, {zlit(negk)}, {natlist(sched)}, {_nz(noise_rec)}, true, {natlit(n)}, {natlist(cmap)}, {obs})")
+        meta.append(rcd)
+        ctx.count("regtree_loop_correspondence")
+        short = len(sched) < k
+        ctx.hist[f"regtree:{method}:{cmode}:" + ("short_batch" if short else "full")] += 1
+        if len(sched) >= 2:
+            ctx.nontriv(("regtree", X.tobytes(), y.tobytes(), cmode, repr(cmap), bs, seed, method))
     return terms, meta
 
 
